@@ -18,10 +18,16 @@ Section Meta.
   Hypothesis Phi_ret : forall A (a : A), Phi (ret a).
   Hypothesis Phi_bind : forall A B (m : M lstate A) (f : A -> M lstate B), Phi m -> (forall a, Phi (f a)) -> Phi (bind m f).
   Hypothesis Phi_fail : forall A e, base_error e -> Phi (@fail lstate A e).
-  Hypothesis Phi_fail_in : forall A c e, base_error e -> Phi (@fail_in A c e).
+  Hypothesis Phi_fail_in : forall A a b e, base_error e -> Phi (@fail_in A (CtxStmts [a; b]) e).
   Hypothesis Phi_panic : forall A p, Phi (@panic lstate A p).
   Hypothesis Phi_oof : forall A, Phi (@out_of_fuel lstate A).
-  Hypothesis Phi_ctx : forall A c (m : M lstate A), Phi m -> Phi (ctx_wrap c m).
+  (* the lazy interpreter wraps errors only in Context::Other or in ONE statement context *)
+  Variable good_ctx : context -> Prop.
+  Hypothesis good_other : good_ctx CtxOther.
+  Hypothesis good_single : forall sc, good_ctx (CtxStmts [sc]).
+  Hypothesis Phi_ctx0 : forall A c (m : M lstate A), good_ctx c -> Phi m -> Phi (ctx_wrap c m).
+  Lemma Phi_ctx A c (m : M lstate A) : (c = CtxOther \/ exists sc, c = CtxStmts [sc]) -> Phi m -> Phi (ctx_wrap c m).
+  Proof. intros [->|[sc ->]] H; apply Phi_ctx0; auto. Qed.
   Hypothesis Phi_get : Phi (@get_state lstate).
   Hypothesis Phi_set_llocals : forall l, Phi (set_llocals l).
   Hypothesis Phi_set_lstore : forall l, Phi (set_lstore l).
@@ -50,6 +56,8 @@ Section Meta.
   Lemma Phi_iterM A (f : A -> M lstate unit) l : (forall x, Phi (f x)) -> Phi (iterM f l).
   Proof. intros H. induction l as [|x l IH]; cbn [iterM]; [apply Phi_ret|]. apply Phi_bind; [apply H|]. intros _. exact IH. Qed.
 
+  Ltac pctx := (apply Phi_ctx; [first [left; reflexivity | right; eexists; reflexivity]|]).
+
   Lemma base_as_syn v : base_res (as_syn v). Proof. destruct v; cbn; exact I. Qed.
 
   Ltac phi_prim :=
@@ -63,7 +71,7 @@ Section Meta.
   Ltac phi_step :=
     first [ phi_prim
           | apply Phi_bind; [|intros ?]
-          | apply Phi_ctx
+          | pctx
           | apply Phi_mapM; intros ?
           | apply Phi_iterM; intros ?
           | match goal with |- Phi (match ?x with _ => _ end) => destruct x end
@@ -104,7 +112,7 @@ Section Meta.
   Lemma Phi_force_pairs ev : (forall sc, Phi (ev sc)) -> forall ps values dbgs, Phi (force_pairs ev ps values dbgs).
   Proof.
     intros Hev. induction ps as [|[[scope v] dbg] ps IHp]; intros values dbgs; cbn [force_pairs]; [apply Phi_ret|].
-    apply Phi_bind; [apply Phi_ctx, Phi_ctx, Hev|intros n].
+    apply Phi_bind; [pctx; pctx; apply Hev|intros n].
     destruct (nmap_get values n); [|apply IHp]. destruct (dbg_get dbgs n); [apply Phi_fail_in; exact I|apply Phi_panic].
   Qed.
 
@@ -123,7 +131,7 @@ Section Meta.
       + phi2. apply IHe.
       + apply IHt.
       + apply Phi_bind.
-        { apply Phi_ctx. apply Phi_bind; [apply IHe|intros sv]. apply Phi_lift, base_as_syn. }
+        { pctx. apply Phi_bind; [apply IHe|intros sv]. apply Phi_lift, base_as_syn. }
         intros n. apply Phi_bind; [apply Phi_cell_get|intros c]. destruct c as [cell|]; [|apply Phi_fail; exact I].
         apply Phi_bind; [apply Phi_cell_set|intros _]. apply Phi_bind; [apply IHs|intros map]. cbv zeta.
         apply Phi_bind; [apply Phi_cell_set|intros _].
@@ -131,7 +139,7 @@ Section Meta.
       + phi2. apply IHe.
     - intros loc. cbn [force_thunk]. apply Phi_bind; [apply Phi_get|intros s].
       destruct (nth_error (l_store s) (N.to_nat loc)) as [th|]; [|apply Phi_panic].
-      apply Phi_ctx. destruct (th_state th); phi2. apply IHe.
+      pctx. destruct (th_state th); phi2. apply IHe.
     - intros name cell. cbn [force_scoped]. destruct cell as [pairs| |map]; [|apply Phi_fail; exact I|apply Phi_ret].
       apply Phi_force_pairs. intros scope. apply Phi_bind; [exact (IHe scope)|intros sv]. apply Phi_lift, base_as_syn.
   Qed.
@@ -145,14 +153,14 @@ Section Meta.
   Lemma Phi_eval_lstmt fuel st : Phi (eval_lstmt t fl call fuel st).
   Proof.
     unfold eval_lstmt. apply Phi_bind; [apply Phi_lpoll|intros _]. destruct st.
-    - apply Phi_ctx. apply Phi_bind; [apply Phi_ctx, Phi_eval_as_gnode|intros n]. apply Phi_iterM. intros a.
+    - pctx. apply Phi_bind; [pctx; apply Phi_eval_as_gnode|intros n]. apply Phi_iterM. intros a.
       apply Phi_bind; [apply Phi_eval_lv|intros v]. apply Phi_bind; [apply Phi_prev_insert|intros prev]. apply Phi_lattr_node_add.
-    - apply Phi_ctx. apply Phi_bind; [apply Phi_ctx, Phi_eval_as_gnode|intros a]. apply Phi_bind; [apply Phi_ctx, Phi_eval_as_gnode|intros b].
+    - pctx. apply Phi_bind; [pctx; apply Phi_eval_as_gnode|intros a]. apply Phi_bind; [pctx; apply Phi_eval_as_gnode|intros b].
       apply Phi_ledge_add.
-    - apply Phi_ctx. apply Phi_bind; [apply Phi_ctx, Phi_eval_as_gnode|intros a]. apply Phi_bind; [apply Phi_ctx, Phi_eval_as_gnode|intros b].
+    - pctx. apply Phi_bind; [pctx; apply Phi_eval_as_gnode|intros a]. apply Phi_bind; [pctx; apply Phi_eval_as_gnode|intros b].
       apply Phi_iterM. intros ak. apply Phi_bind; [apply Phi_eval_lv|intros v]. apply Phi_bind; [apply Phi_ledge_exists|intros ex].
       destruct ex; [|apply Phi_fail; exact I]. apply Phi_bind; [apply Phi_prev_insert|intros prev]. apply Phi_lattr_edge_add.
-    - apply Phi_ctx. apply Phi_iterM. intros a. destruct a; [|apply Phi_ret]. apply Phi_bind; [apply Phi_eval_lv|intros _; apply Phi_ret].
+    - pctx. apply Phi_iterM. intros a. destruct a; [|apply Phi_ret]. apply Phi_bind; [apply Phi_eval_lv|intros _; apply Phi_ret].
   Qed.
 
   Lemma Phi_evaluate_phase fuel : Phi (evaluate_phase t fl call fuel).
@@ -246,7 +254,7 @@ Section Meta.
     assert (Harm : forall le' body,
                Phi (iterM (fun st => let c := ctx_update (ll_ctx le') st in
                                      ctx_wrap (CtxStmts [c]) (ctx_wrap CtxOther (lexec_stmt' fuel (ll_with_ctx le' c) st))) body)).
-    { intros le' body. apply Phi_iterM. intros st. cbv zeta. apply Phi_ctx, Phi_ctx, IH. }
+    { intros le' body. apply Phi_iterM. intros st. cbv zeta. pctx; pctx; apply IH. }
     destruct s; cbn [lexec_stmt]; (apply Phi_bind; [apply Phi_lpoll|intros _]).
     - apply Phi_bind; [apply Phi_leval|intros x; apply Phi_lvar_add].
     - apply Phi_bind; [apply Phi_leval|intros x; apply Phi_lvar_add].
@@ -271,7 +279,7 @@ Section Meta.
   Lemma Phi_lexec_stanza fuel st m : Phi (lexec_stanza t fl cfg glob regexes find call fuel st m).
   Proof.
     unfold lexec_stanza. apply Phi_bind; [apply Phi_lpoll|intros _]. apply Phi_bind; [apply Phi_lclear_frame|intros _].
-    cbv zeta. apply Phi_bind; [apply Phi_lfull_match_node|intros n]. apply Phi_iterM. intros s. apply Phi_ctx, Phi_lexec_stmt.
+    cbv zeta. destruct (nodes_for_capture m (st_full_file_idx st)); [apply Phi_panic|]. apply Phi_iterM. intros s. pctx; apply Phi_lexec_stmt.
   Qed.
 
   Theorem Phi_lexec_file fuel ms : Phi (lexec_file t fl cfg glob regexes find call fuel ms).
